@@ -270,6 +270,11 @@ def sdssflux2ab(flux, magnitude=False, ivar=False):
     correction = np.array([-0.042, 0.036, 0.015, 0.013, -0.002])
     rows, cols = flux.shape
     abflux = flux.copy()
+    if abflux.dtype.kind != 'f':
+        #
+        # The corrections are not whole numbers.
+        #
+        abflux = abflux.astype('d')
     if magnitude:
         for i in range(rows):
             abflux[i, :] += correction
